@@ -10,6 +10,7 @@ from __future__ import annotations
 
 import ast
 import multiprocessing
+import os
 import random
 from dataclasses import dataclass
 
@@ -56,11 +57,30 @@ def _apply(prog, v):
     return Program(prog.root, overrides={v.path: ast.unparse(tree)}, base=prog)
 
 
+def all_variants(prop, mod):
+    """hand-written witnesses/twins of the rule module + one automatic alpha-renaming twin per anchored file"""
+    import json
+    from . import VERIF
+    out = list(mod.variants()) if hasattr(mod, "variants") else []
+    files = []
+    try:
+        for l in open(os.path.join(VERIF, "properties.jsonl")):
+            rec = json.loads(l)
+            if rec["id"] == prop:
+                files = [f for f in rec["anchors"]["files"] if f.endswith(".py")]
+    except OSError:
+        files = []
+    for f in getattr(mod, "EXTRA_FILES", []):
+        if f not in files:
+            files.append(f)
+    return out + auto_rename_twins(files)
+
+
 def _run_one(args):
     prop, idx, root, base_keys, base_rc = args
     from .check import load_rules
     mod = load_rules(prop)
-    v = mod.variants()[idx]
+    v = all_variants(prop, mod)[idx]
     prog = _PROG[0] if _PROG and _PROG[0].root == root else Program(root)
     try:
         prog2 = _apply(prog, v)
@@ -72,6 +92,9 @@ def _run_one(args):
     ctx = Ctx(prop, prog2, "quick", 0)
     run_rules(mod, ctx)
     new = [f for f in ctx.findings if f.key() not in base_keys]
+    if ctx.inconclusive and v.name.startswith("auto:") and not new:
+        # alpha-renaming made a name-anchored rule inconclusive: tolerated (never a violation), recorded in evidence
+        return (idx, "inconclusive", ctx.inconclusive[:300])
     if ctx.inconclusive and not (v.kind == "witness" and any(f.rule == v.rule for f in new)):
         if v.kind == "witness":
             return (idx, "fail", "witness made the analysis inconclusive instead of firing: %s" % ctx.inconclusive)
@@ -95,7 +118,7 @@ _PROG = []
 
 
 def run_variants(prop, mod, prog, base_ctx, tier, seed):
-    allv = mod.variants() if hasattr(mod, "variants") else []
+    allv = all_variants(prop, mod)
     res = {"witnesses_run": 0, "twins_run": 0, "witnesses_skipped": 0, "available": len(allv), "names": []}
     if not allv:
         return res
@@ -123,6 +146,8 @@ def run_variants(prop, mod, prog, base_ctx, tier, seed):
         res["names"].append({"kind": v.kind, "name": v.name, "rule": v.rule, "status": status, "msg": msg})
         if status == "skipped":
             res["witnesses_skipped"] += 1
+        elif status == "inconclusive":
+            res.setdefault("auto_twins_inconclusive", []).append(v.name)
         elif status in ("fail", "error"):
             fails.append("%s %s: %s" % (v.kind, v.name, msg))
         elif v.kind == "witness":
@@ -132,3 +157,102 @@ def run_variants(prop, mod, prog, base_ctx, tier, seed):
     if fails:
         raise AnalysisError("checker self-validation failed: " + " | ".join(fails))
     return res
+
+
+# ----------------------------------------------------------------------------------------------------
+# automatic alpha-renaming twins: every function-local variable of a file is renamed consistently.
+# Behaviour is unchanged, so every rule must stay silent (finds rules that depend on local names).
+
+def _rename_locals(tree):
+    import symtable  # noqa: F401  (kept stdlib-only; scoping done by hand below)
+    changed = 0
+
+    def locals_of(fn):
+        params = {a.arg for a in fn.args.posonlyargs + fn.args.args + fn.args.kwonlyargs}
+        if fn.args.vararg:
+            params.add(fn.args.vararg.arg)
+        if fn.args.kwarg:
+            params.add(fn.args.kwarg.arg)
+        declared = set()
+        assigned = set()
+        nested_defs = set()
+
+        def walk(n, top):
+            for c in ast.iter_child_nodes(n):
+                if isinstance(c, (ast.FunctionDef, ast.AsyncFunctionDef, ast.ClassDef)):
+                    nested_defs.add(c.name)
+                    continue
+                if isinstance(c, ast.Lambda):
+                    continue
+                if isinstance(c, (ast.Global, ast.Nonlocal)):
+                    declared.update(c.names)
+                if isinstance(c, ast.Name) and isinstance(c.ctx, (ast.Store, ast.Del)):
+                    assigned.add(c.id)
+                if isinstance(c, ast.ExceptHandler) and c.name:
+                    declared.add(c.name)
+                if isinstance(c, (ast.Import, ast.ImportFrom)):
+                    for a in c.names:
+                        declared.add((a.asname or a.name).split(".")[0])
+                walk(c, False)
+        walk(fn, True)
+        return assigned - params - declared - nested_defs
+
+    def free_in_nested(fn, names):
+        # a local read by a nested function/lambda/comprehension is renamed there too (same scope chain)
+        return names
+
+    def apply(fn, mapping):
+        def rec(n, mapping):
+            for c in ast.iter_child_nodes(n):
+                if isinstance(c, (ast.FunctionDef, ast.AsyncFunctionDef)):
+                    inner_params = {a.arg for a in c.args.posonlyargs + c.args.args + c.args.kwonlyargs}
+                    inner_assigned = locals_of(c)
+                    m2 = {k: v for k, v in mapping.items() if k not in inner_params and k not in inner_assigned}
+                    # defaults/decorators evaluate in the enclosing scope
+                    for d in c.args.defaults + c.args.kw_defaults + c.decorator_list:
+                        if d is not None:
+                            rec_expr(d, mapping)
+                    for b in c.body:
+                        rec_stmt(b, m2)
+                    continue
+                if isinstance(c, ast.Lambda):
+                    lp = {a.arg for a in c.args.args + c.args.kwonlyargs}
+                    rec(c.body if False else c, {k: v for k, v in mapping.items() if k not in lp})
+                    continue
+                if isinstance(c, ast.ClassDef):
+                    continue
+                if isinstance(c, ast.Name) and c.id in mapping:
+                    c.id = mapping[c.id]
+                rec(c, mapping)
+
+        def rec_expr(e, mapping):
+            if isinstance(e, ast.Name) and e.id in mapping:
+                e.id = mapping[e.id]
+            rec(e, mapping)
+
+        def rec_stmt(s, mapping):
+            if isinstance(s, ast.Name) and s.id in mapping:
+                s.id = mapping[s.id]
+            rec(s, mapping)
+        rec(fn, mapping)
+
+    def visit(scope_body):
+        nonlocal changed
+        for n in scope_body:
+            if isinstance(n, ast.ClassDef):
+                visit(n.body)
+            elif isinstance(n, (ast.FunctionDef, ast.AsyncFunctionDef)):
+                loc = sorted(locals_of(n))
+                # comprehension / keyword names are unaffected: keywords are ast.keyword.arg, not Name
+                mapping = {name: "%s_rn" % name for name in loc if not name.startswith("__")}
+                if mapping:
+                    apply(n, mapping)
+                    changed += len(mapping)
+                # nested functions get their own locals renamed as well
+                visit([c for c in ast.walk(n) if isinstance(c, (ast.FunctionDef, ast.AsyncFunctionDef)) and c is not n])
+    visit(tree.body)
+    return changed > 0
+
+
+def auto_rename_twins(paths):
+    return [twin("auto: all locals of %s renamed" % os.path.basename(p), p, _rename_locals) for p in paths]
